@@ -16,7 +16,7 @@ Open Scope list_scope.
 
 (* ---------- values ---------- *)
 Inductive pv :=
-| PNone | PInt (z: Z) | PFloat (z: Z) | PStr (s: string) | PList (l: list Z)
+| PNone | PBool (b: bool) | PInt (z: Z) | PFloat (z: Z) | PStr (s: string) | PList (l: list Z)
 | PFresh (n: nat).                      (* object made by a default_factory, n = allocation label *)
 
 Definition is_none (v: pv) : bool := match v with PNone => true | _ => false end.
